@@ -96,6 +96,12 @@ def run(e: Engine, rep: Report):
              'handed in starts as the success reply (235 for AUTH), so going '
              'on after a failed validator authenticates the client')
     r815(e, rep)
+    rep.rule('R8.16', 'nothing received in clear text outlives the '
+             'handshake: every attribute of IO that its receive path writes '
+             '(recv_buffer and whatever is derived from it: parsed replies, '
+             'partial lines, cursors) is reset by encrypt_socket_client and '
+             'encrypt_socket_server')
+    r816(e, rep)
     rep.floor('R8.1', 1, 'socket swap sites')
 
 
@@ -1118,3 +1124,77 @@ def r815(e: Engine, rep: Report):
                   'the credentials', loc=c.loc(),
                   reason='no arm around the call completes normally',
                   witness=dataflow.render_path(pth, 12) if pth else None)
+
+
+# ------------------------------------------------------------------ R8.16
+RECV_ENTRY_POINTS = {'recv_reply', 'recv_line', 'recv_command',
+                     'buffered_recv'}
+_STATE_MUTATORS = {'append', 'appendleft', 'extend', 'extendleft', 'insert',
+                   'add', 'update', 'write', 'setdefault', 'push'}
+
+
+def r816(e: Engine, rep: Report):
+    IOC = 'slimta.smtp.io.IO'
+    c = e.p.classes.get(IOC)
+    if c is None:
+        rep.error('anchor vanished: ' + IOC)
+        return
+    owners = common.owner_closure(e, IOC, set(RECV_ENTRY_POINTS))
+
+    def written(m):
+        out = {}
+        for x in walk_own(m.node):
+            if isinstance(x, ast.Attribute) and isinstance(
+                    x.ctx, (ast.Store,)) and isinstance(x.value, ast.Name) \
+                    and x.value.id == 'self':
+                out.setdefault(x.attr, x)
+            if isinstance(x, ast.Call) and isinstance(x.func, ast.Attribute) \
+                    and x.func.attr in _STATE_MUTATORS and \
+                    isinstance(x.func.value, ast.Attribute) and \
+                    isinstance(x.func.value.value, ast.Name) and \
+                    x.func.value.value.id == 'self':
+                out.setdefault(x.func.value.attr, x)
+        return out
+    state = {}
+    for mname in sorted(owners):
+        m = c.methods.get(mname)
+        if m is None:
+            continue
+        for attr, node in written(m).items():
+            state.setdefault(attr, (m, node))
+    state.pop('socket', None)
+    if 'recv_buffer' not in state:
+        rep.error('anchor vanished: recv_buffer written by the receive '
+                  'path of IO')
+        return
+    for meth in ('encrypt_socket_client', 'encrypt_socket_server'):
+        ctx = e.method_ctx(IOC, meth)
+        g = e.build(ctx, raises=lambda b, n, r: set(),
+                    inline=e.inline_same_self(), max_depth=3)
+        where = ctx.func.qname
+        rep.functions.add(where)
+        reset = set()
+        for n in g.nodes:
+            if n.kind == 'stmt' and isinstance(n.ast, ast.Assign):
+                for t in n.ast.targets:
+                    for el in (t.elts if isinstance(t, (ast.Tuple, ast.List))
+                               else [t]):
+                        q = path_of(el, n.frame) or ''
+                        if q.startswith('self.') and q.count('.') == 1:
+                            reset.add(q[5:])
+            if n.kind == 'call' and isinstance(n.ast.func, ast.Attribute) \
+                    and n.ast.func.attr == 'clear':
+                q = path_of(n.ast.func.value, n.frame) or ''
+                if q.startswith('self.') and q.count('.') == 1:
+                    reset.add(q[5:])
+        for attr, (m, node) in sorted(state.items()):
+            rep.evaluations += 1
+            rep.check(attr in reset, 'R8.16', where,
+                      'receive-side state `%s` is reset' % attr,
+                      'IO.%s, written by %s from what was received, is not '
+                      'reset when the socket is wrapped in TLS: what the '
+                      'peer (or someone in its place) sent in clear text '
+                      'behind the STARTTLS exchange is still handed out '
+                      'after the handshake as if it had come through the '
+                      'encrypted channel' % (attr, m.name), loc=m.loc(node),
+                      reason='assigned / cleared in %s' % meth)
